@@ -63,8 +63,8 @@ theorem count_along (cols : List (List Int)) (n : Nat) (idx : List Nat) (hperm :
 theorem groupby_hint_irrelevant (v : Variant) (k0 : KeyCol) (ks : List KeyCol) (n : Nat)
     (hrect : Rect n ((k0 :: ks).map (·.data))) (hf : Faithful (k0 :: ks))
     (hsorted : SortedRows ((k0 :: ks).map (·.data)) n) :
-    groupby v (k0 :: ks) true = groupby v (k0 :: ks) false := by
-  unfold groupby
+    groupbyStacked v (k0 :: ks) true = groupbyStacked v (k0 :: ks) false := by
+  unfold groupbyStacked
   rw [stack_ok k0 ks n hrect]
   simp only [if_true, Bool.false_eq_true, if_false]
   obtain ⟨b, hb, hspec⟩ := checkIfSorted_spec (k0.data.map k0.cast) (ks.map (fun k => k.data.map k.cast)) n
